@@ -23,6 +23,9 @@ PROPS = {
     'C13': dict(level='exploration', proof=None, bounded=['vlib.rtc.c13'], explanation='placeholder', trusted_base=[], assumptions=[]),
     'C14': dict(level='other', proof=None, bounded=['vlib.rtc.c14'], explanation='placeholder', trusted_base=[], assumptions=[]),
     'C15': dict(level='exploration', proof=None, bounded=['vlib.rtc.c15'], explanation='placeholder', trusted_base=[], assumptions=[]),
+    'C16': dict(level='exploration', proof=None, bounded=['vlib.rtc.c16'], explanation='placeholder', trusted_base=[], assumptions=[]),
+    'C17': dict(level='other', proof=None, bounded=['vlib.rtc.c17'], explanation='placeholder', trusted_base=[], assumptions=[]),
+    'C18': dict(level='other', proof=None, bounded=['vlib.rtc.c18'], explanation='placeholder', trusted_base=[], assumptions=[]),
 }
 
 NOTES = ('Technique family: contract-based deductive verification of the real code. Proof obligations are generated '
